@@ -59,12 +59,16 @@ def quantize_weight(
         if axis is not None and t.shape[axis] == 1:
             # Quantizing along an axis of dimension 1 means quantizing per-tensor
             axis = None
-        scale = optimizer(t, qtype.bits, axis)
+        # The quantizer does not propagate gradients to the scale: it is evaluated outside of the graph of the weights
+        with torch.no_grad():
+            scale = optimizer(t, qtype.bits, axis)
         return SymmetricQuantizer.apply(t, qtype, axis, scale)
     if optimizer is None:
         optimizer = default_affine_optimizer
     else:
         if not isinstance(optimizer, AffineOptimizer):
             raise ValueError("An AffineOptimizer is expected")
-    scale, zeropoint = optimizer(t, qtype.bits, axis, group_size)
+    # The quantizer does not propagate gradients to the scale and zeropoint: they are evaluated outside of the graph of the weights
+    with torch.no_grad():
+        scale, zeropoint = optimizer(t, qtype.bits, axis, group_size)
     return AffineQuantizer.apply(t, qtype, axis, group_size, scale, zeropoint)
